@@ -191,7 +191,7 @@ pub fn run(run: &Run) {
         check_case(run, "C11", "twin", Src::fresh(Rng::derive(run.seed, 11, i)), &gen_case, &oracle, &witness, &|c, s| {
             let (_, b) = build(c);
             run.nontrivial(fnv(&b));
-            for l in &s.labels { run.count(&format!("label:{}", l)); }
+            run.count_labels(&s.labels);
             if i < 5 { run.sample(json!({"value": brief_v(&c.v), "position": c.position, "members": c.n_members, "trailing_ws": c.trailing_ws, "filters": c.filters, "length_mode": c.length_mode})); }
         }, json!({}));
     });
